@@ -63,6 +63,9 @@ func init() {
 	registerExec("hcount", hHcount)
 	registerExec("sum", hSum)
 	registerExec("iter", hIter)
+	registerExec("blen", hBlen)
+	registerExec("appd", hAppd)
+	registerExec("setd", hSetd)
 	registerExec("rset", hRset)
 	registerExec("rtxt", hRtxt)
 }
@@ -604,4 +607,47 @@ func hIter(st *State, a []string) string {
 		emit("| " + ev.String())
 	}
 	return sb.String()
+}
+
+// blen <h>: ValueByteLength
+func hBlen(st *State, a []string) string {
+	hd := st.h(a[0])
+	n, err := hd.vw.ValueByteLength()
+	if err != nil {
+		return "err"
+	}
+	return fmt.Sprintf("ok %d", n)
+}
+
+// appd <h>: append the element type's Default view (it shares the process-wide zero nodes)
+func hAppd(st *State, a []string) string {
+	hd := st.h(a[0])
+	et := elemTy(hd.t, 0)
+	if et == nil {
+		return "err"
+	}
+	el := typeDef(et).Default(nil)
+	switch x := hd.vw.(type) {
+	case *view.BasicListView:
+		return errStr(x.Append(el.(view.BasicView)))
+	case *view.ComplexListView:
+		return errStr(x.Append(el))
+	case *view.BitListView:
+		return errStr(x.Append(el.(view.BoolView)))
+	}
+	return "err"
+}
+
+// setd <h> <i>: set slot i to the element type's Default view
+func hSetd(st *State, a []string) string {
+	hd := st.h(a[0])
+	i, _ := strconv.ParseUint(a[1], 10, 64)
+	et := elemTy(hd.t, i)
+	if et == nil {
+		et = elemTy(hd.t, 0)
+		if et == nil {
+			return "err"
+		}
+	}
+	return errStr(setElem(hd, i, typeDef(et).Default(nil)))
 }
